@@ -85,6 +85,11 @@ CHECKS = {
          "With data flowing (W2, W6) and CID rotation on, at every step index after the handshake the client's source address changes (port only on IPv4 and IPv6, full address), a second migration follows after several gaps, an attacker's copy of a genuine client datagram arrives from a third address ahead of the original (client continuing or silent), the server has migration disabled, or server datagrams reach the client from a foreign address; each combined with every single drop/dup/delay of the next 8 datagrams. Oracles: after a PATH_RESPONSE echoing a challenge sent to the new address was delivered the server reports and uses only that address and the workload completes; until then the 3x byte ledger bounds what is sent there and PATH_CHALLENGE/RESPONSE datagrams are >= 1200 bytes; a spoofed path is abandoned within 3 PTO; without permission to migrate nothing is sent to and no data accepted from the other address.",
          "The migrating client keeps sending from the new address and is reachable there; 3 PTO bound uses max(old-path PTO from the probe, initial PTO of a fresh path).",
          "DESIGN.md#c15"),
+ "C16": ("E3+E2", "model_checking",
+         "exhaustive admission sweep (every size x MTU state x peer limit x send buffer) on real endpoints with a wire oracle; exhaustive operation-sequence enumeration against a FIFO-with-byte-budget reference model; deviation-bounded exploration for integrity",
+         "For EVERY datagram size from 0 to the maximum+2, in three MTU states (initial 1200, after discovery to 1452, after black-hole fallback to 1200), for peer max_datagram_frame_size in {absent, 0, 1, 2, 9, 10, 100, 1200, 65535}, send buffers {default, size, size-1, 0} and datagrams locally disabled, send() on a real established connection must answer exactly as the property states; max_size() must fit one packet on the current path and the peer's limit by independent arithmetic; an accepted datagram must appear exactly once on the wire, in one DATAGRAM frame no larger than the peer's limit inside a UDP datagram no larger than the MTU, and arrive byte-identical. Every sequence up to the depth bound over send(len, drop) / flush / recv / send_buffer_space is compared with a FIFO byte-budget model (Blocked, DatagramsUnblocked exactly once, oldest dropped first on both sides). A mixed stream+datagram workload is explored under <=k fate deviations: every received datagram equals one sent and none is delivered more often than sent+duplicated by the network.",
+         "Sequences call send() without polling in between; flush runs a loss-free network to quiescence.",
+         "DESIGN.md#c16"),
  "C20": ("E3", "fault_enumeration",
          "exhaustive insertion-point enumeration with differential (replay / time-translated / extra-call) runs of real endpoints",
          "For a list of input histories (baselines incl. Retry, CID rotation, key update, rebinding, migration, and every single-deviation history) the run is repeated: identically (bit-identical trace incl. every poll_timeout value), with all Instants shifted by 1 s / 1 day / 10 years (identical relative trace), with a spurious handle_timeout or extra poll round inserted at EVERY step index on either side (identical packets, frames and events), and with all datagrams re-fed plus ten timeouts after both sides drained (no output). A timer may not fire more than 16 consecutive times at one instant.",
